@@ -142,6 +142,7 @@ theorem plain_schemaOf : (t : Ty) → t.isRef = false → Plain (schemaOf t)
     · rename_i h; exact plain_withNullable _ (plain_schemaOf t (by simpa using h))
   | .enumOf _, h => by simp [Ty.isRef] at h
   | .struct _, h => by simp [Ty.isRef] at h
+  | .untagged _, h => by simp [Ty.isRef] at h
 
 theorem schemaOf_opt_valid (t : Ty) (j : J) :
     (schemaOf (.opt t)).valid ρ j = ((schemaOf t).valid ρ j || j.isNull) := by
@@ -219,6 +220,39 @@ theorem q_cons (name ty dflt rest) (ih1 : P ρ ty) (ih2 : Q ρ rest) : Q ρ (.co
       simp only [Bool.and_eq_true] at this
       cases ho : (dflt || ty.isOpt) <;> simp [hk, hd, ih2 kvs, this.1, this.2, Bool.and_assoc, Bool.and_left_comm]
 
+/-- an alternative that decodes makes the `anyOf` valid. -/
+def R (alts : TyList) : Prop :=
+  ∀ j, (decodeAlts alts j).isSome = true → ((schemaListOf alts).vals ρ j).any id = true
+
+theorem r_nil : R ρ .nil := by intro j h; simp [decodeAlts] at h
+
+theorem r_cons (t rest) (ih1 : P ρ t) (ih2 : R ρ rest) : R ρ (.cons t rest) := by
+  intro j h
+  simp only [decodeAlts] at h
+  simp only [schemaListOf, JSList.vals, List.any_cons, id]
+  cases hd : decodeJson t j with
+  | some v =>
+    have := ih1 j
+    rw [hd] at this
+    have hv : ((schemaOf t).valid ρ j && formatOk t j) = true := by simpa using this.symm
+    simp only [Bool.and_eq_true] at hv
+    simp [hv.1]
+  | none =>
+    rw [hd] at h
+    simp [ih2 j h]
+
+theorem anyOfSchema_valid (l : JSList) (j : J) :
+    (anyOfSchema l).valid ρ j = ((l.vals ρ j).any id) := by
+  simp [anyOfSchema, JS.valid, typeOk, enumOk, constOk, JSSubs.valid, JSOptList.allOk, JSOptList.anyOk,
+    JSOptList.oneOk, numOk, strOk, optAll, JSArr.valid, JSObjV.valid, extNullable_nil]
+
+theorem p_untagged (alts) (ih : R ρ alts) : P ρ (.untagged alts) := by
+  intro j
+  simp only [decodeJson, schemaOf, formatOk, anyOfSchema_valid]
+  cases h : (decodeAlts alts j).isSome
+  · simp
+  · simp [ih j h]
+
 mutual
 theorem sound_complete : (t : Ty) → P ρ t
   | .bool => p_bool ρ
@@ -232,9 +266,13 @@ theorem sound_complete : (t : Ty) → P ρ t
   | .map t => p_map ρ t (sound_complete t)
   | .struct fs => p_struct ρ fs (sound_complete_fields fs)
   | .unit => p_unit ρ
+  | .untagged alts => p_untagged ρ alts (sound_complete_alts alts)
 theorem sound_complete_fields : (fs : Fields) → Q ρ fs
   | .nil => q_nil ρ
   | .cons name ty dflt rest => q_cons ρ name ty dflt rest (sound_complete ty) (sound_complete_fields rest)
+theorem sound_complete_alts : (alts : TyList) → R ρ alts
+  | .nil => r_nil ρ
+  | .cons t rest => r_cons ρ t rest (sound_complete t) (sound_complete_alts rest)
 end
 
 /-! ### Parameter extraction -/
@@ -388,6 +426,18 @@ theorem total_cons (name ty d rest) (ih1 : TotalT ty) (ih2 : TotalF rest) : Tota
   obtain ⟨ps, hps⟩ := (isOk_iff _).1 ih2
   simp [TotalF, propsOf, j2oasProps, hr, hps, isOk]
 
+def TotalL (alts : TyList) : Prop := isOk (j2oasList (schemaListOf alts)) = true
+
+theorem total_untagged (alts) (ih : TotalL alts) : TotalT (.untagged alts) := by
+  intro n
+  obtain ⟨rs, hrs⟩ := (isOk_iff _).1 ih
+  simp [schemaOf, anyOfSchema, j2oas, tyArm, j2oasSubschemas, hrs, isOk]
+
+theorem totalL_cons (t rest) (ih1 : TotalT t) (ih2 : TotalL rest) : TotalL (.cons t rest) := by
+  obtain ⟨r, hr⟩ := (isOk_iff _).1 (ih1 none)
+  obtain ⟨rs, hrs⟩ := (isOk_iff _).1 ih2
+  simp [TotalL, schemaListOf, j2oasList, hr, hrs, isOk]
+
 mutual
 theorem j2oas_total : (t : Ty) → TotalT t
   | .bool => fun n => (total_scalar n).1
@@ -401,13 +451,18 @@ theorem j2oas_total : (t : Ty) → TotalT t
   | .vec t => total_vec t (j2oas_total t)
   | .map t => total_map t (j2oas_total t)
   | .struct fs => total_struct fs (j2oas_total_fields fs)
+  | .untagged alts => total_untagged alts (j2oas_total_alts alts)
 theorem j2oas_total_fields : (fs : Fields) → TotalF fs
   | .nil => rfl
   | .cons name ty d rest => total_cons name ty d rest (j2oas_total ty) (j2oas_total_fields rest)
+theorem j2oas_total_alts : (alts : TyList) → TotalL alts
+  | .nil => rfl
+  | .cons t rest => totalL_cons t rest (j2oas_total t) (j2oas_total_alts rest)
 end
 
 def SupT (t : Ty) : Prop := t.wf = true → (schemaOf t).supported = true
 def SupF (fs : Fields) : Prop := fs.wf = true → (propsOf fs).supported = true
+def SupL (alts : TyList) : Prop := alts.wf = true → (schemaListOf alts).supported = true
 
 theorem sup_opt (t) (ih : SupT t) : SupT (.opt t) := by
   intro h
@@ -442,11 +497,20 @@ theorem schemaOf_supported : (t : Ty) → SupT t
   | .struct fs => fun h => by
     have := schemaOf_supported_fields fs (by simpa [Ty.wf] using h)
     simp [schemaOf, mkTyped, JS.supported, tyArm, JSObjV.supported, JSOpt.supported, this]
+  | .untagged alts => fun h => by
+    have := schemaOf_supported_alts alts (by simpa [Ty.wf] using h)
+    simp [schemaOf, anyOfSchema, JS.supported, tyArm, numTrivial, strTrivial, JSArr.trivial, JSObjV.trivial,
+      JSSubs.supported, JSOptList.supported, JSOpt.supported, this]
 theorem schemaOf_supported_fields : (fs : Fields) → SupF fs
   | .nil => fun _ => rfl
   | .cons name ty d rest => fun h => by
     simp only [Fields.wf, Bool.and_eq_true] at h
     simp [propsOf, JSProps.supported, schemaOf_supported ty h.1, schemaOf_supported_fields rest h.2]
+theorem schemaOf_supported_alts : (alts : TyList) → SupL alts
+  | .nil => fun _ => rfl
+  | .cons t rest => fun h => by
+    simp only [TyList.wf, Bool.and_eq_true] at h
+    simp [schemaListOf, JSList.supported, schemaOf_supported t h.1, schemaOf_supported_alts rest h.2]
 end
 
 end Dropshot.Doc07
